@@ -17,8 +17,11 @@ TREES = {
     "D2": {"a": "x", "b": "x", "e": "e"},
     "D3": {"sp ace": "lf", "s/t/a": "bin"},
     "D4": {"L1": "big1", "L2": "big2", "a": "x", "m": "y"},   # two large files + small ones in one directory
+    # contents whose legacy digest is delicate: a lone CR among CR LF pairs; CR LF text with a NUL after byte 512
+    "D5": {"p": "lonecr", "q": "latenul"},
 }
-CONTENTS = dict(CONTENTS, big1=b"1" * (2**20 + 1), big2=b"2" * (2**20 + 1))
+CONTENTS = dict(CONTENTS, big1=b"1" * (2**20 + 1), big2=b"2" * (2**20 + 1),
+                lonecr=b"10%\r50%\r100%\r\ndone\r\n", latenul=b"row\r\n" * 120 + b"\x00tail\r\n")
 STORES = {"L": ("local", "md5"), "B": ("base", "md5"), "G": ("local", "md5-dos2unix")}
 
 
@@ -28,6 +31,9 @@ def alphabet(tier):
         if t == "D4":
             # the large-file tree only through the operations that hash / add its files
             ops += [("st", t, "L"), ("st", t, "B"), ("stu", t, "L"), ("save", t, "L")]
+            continue
+        if t == "D5":
+            ops += [("st", t, "G"), ("st", t, "L")]
             continue
         for s in ("L", "B"):
             ops.append(("st", t, s))
@@ -147,7 +153,8 @@ def run_history(hist, with_state):
             cfg = {"hash_name": hn}
             if state is not None:
                 cfg["state"] = state
-            odbs[s] = make_odb(kind, w.p("store", s), **cfg)
+            # (the stores live below a directory whose name contains ".dir")
+            odbs[s] = make_odb(kind, w.p("stores.dirs", s), **cfg)
         stagings = set()
         unprot = {s: set() for s in STORES}
         try:
@@ -294,7 +301,8 @@ def run_history2(hist, with_state):
             cfg = {"hash_name": "md5"}
             if state is not None:
                 cfg["state"] = state
-            odbs[s] = make_odb(kind, w.p("store", s), **cfg)
+            # (the stores live below a directory whose name contains ".dir")
+            odbs[s] = make_odb(kind, w.p("stores.dirs", s), **cfg)
         damaged = {s: set() for s in R_STORES}
         try:
             for i, op in enumerate(hist):
